@@ -12,6 +12,7 @@ usage: c18_native.py <n_seeds>
 import concurrent.futures
 import hashlib
 import os
+import re
 import shutil
 import subprocess
 import sys
@@ -21,6 +22,9 @@ ARGS = sys.argv[1:]
 from harness.bounded import Recorder  # noqa: E402
 
 REPO = os.environ.get('PYVC_REPO', '/repo')
+
+KEEP = '(assert (not (not (not (distinct ' + ' '.join(
+    f'(+ a {i + 2})' for i in range(7)) + ')))))'
 
 INPUTS = {
     'vars': '(set-logic QF_LIA)\n(declare-const bb Int)\n(declare-const aa '
@@ -42,7 +46,16 @@ INPUTS = {
     'order': '(set-logic QF_LIA)\n' + ''.join(
         f'(declare-const x{i} Int)\n' for i in range(8)) + ''.join(
         f'(assert (> x{i} {i}))\n' for i in range(8)) + '(check-sat)\n',
+    # a fresh variable is introduced and accepted; the command is slow on
+    # some rejected candidates only (EXTRA / SLOW_ON below)
+    'fresh': '(declare-const a Int)\n(declare-const b Int)\n'
+             '(assert (> (+ (* a 3) b) 5))\n' + KEEP + '\n',
 }
+
+# per input: extra options, and a text on which the command sleeps longer
+EXTRA = {'fresh': ['--disable-all', '--constants',
+                   '--introduce-fresh-variables']}
+SLOW_ON = {'fresh': '(+ 0 0)'}
 
 CMD = r'''#!%(py)s
 import sys, hashlib, time, os, re
@@ -54,6 +67,10 @@ delay = float(os.environ.get('C18_DELAY', '0'))
 if delay:
     # timing perturbation: slows every test of this run down
     time.sleep(delay)
+    slow_on = os.environ.get('C18_SLOW_ON', '')
+    if slow_on and slow_on in text:
+        # ... and some tests much more than others
+        time.sleep(40 * delay)
 with open(%(log)r, 'a') as f:
     f.write(hashlib.sha256(' '.join(toks).encode()).hexdigest()[:16] + (' ok' if ok else ' no') + '\n')
 if ok:
@@ -70,6 +87,8 @@ PREDS = {
           "'assert' in toks",
     'order': "len(re.findall(r'\\(assert \\(> x[0-9]+ [0-9]+\\)\\)', "
              "text)) >= 4",
+    'fresh': "'(+ 0 0)' not in text and %r in text and "
+             "re.search(r'\\(assert \\(> [a-z(]', text) is not None" % KEEP,
 }
 
 
@@ -88,22 +107,33 @@ def one_run(args):
         env = dict(os.environ)
         env['PYTHONHASHSEED'] = str(seed)
         env['C18_DELAY'] = str(delay)
+        env['C18_SLOW_ON'] = SLOW_ON.get(iname, '')
         env['PYTHONPATH'] = REPO
         wlog = os.path.join(d, 'writes.txt')
         env['DDSMT_WRITES'] = wlog
+        env['DDSMT_WRITES_MASK'] = 'x[0-9]+__fresh'
         launcher = os.path.join(os.path.dirname(os.path.abspath(__file__)),
                                 'launch_ddsmt.py')
         r = subprocess.run([sys.executable, launcher,
-                            '-j', '1', '--strategy', strategy, '-q', inp, out,
-                            cmd], capture_output=True, text=True, env=env,
+                            '-j', '1', '--strategy', strategy, '-q'] +
+                           EXTRA.get(iname, []) + [inp, out, cmd], capture_output=True, text=True, env=env,
                            timeout=600, cwd=d)
         # the sequence of accepted inputs = contents successively written
-        seq = open(wlog).read() if os.path.exists(wlog) else ''
+        rows = [ln.split() for ln in open(wlog)] if os.path.exists(wlog) \
+            else []
+        seq = ''.join(r[0] + '\n' for r in rows)
+        mseq = ''.join(r[-1] + '\n' for r in rows)
         outb = open(out, 'rb').read() if os.path.exists(out) else b''
+        def h(t):
+            return hashlib.sha256(t.encode()).hexdigest()[:16]
+
+        def masked(t):
+            return re.sub(r'x[0-9]+__fresh', 'x#__fresh', t)
+
+        outt = outb.decode()
         return (iname, strategy, seed, delay, r.returncode,
-                hashlib.sha256(seq.encode()).hexdigest()[:16],
-                seq.count('\n'), hashlib.sha256(outb).hexdigest()[:16],
-                outb.decode()[:200], r.stderr[-300:])
+                h(seq), seq.count('\n'), h(outt),
+                outt[:200], r.stderr[-300:], h(mseq), h(masked(outt)))
     finally:
         shutil.rmtree(d, ignore_errors=True)
 
@@ -124,7 +154,7 @@ def main():
     with concurrent.futures.ProcessPoolExecutor(12) as ex:
         for res in ex.map(one_run, jobs):
             (iname, strategy, seed, delay, rc, seqh, ntests, outh, outtxt,
-             err) = res
+             err, mseqh, mouth) = res
             rec.case((iname, strategy, seed, delay),
                      {'input': iname, 'strategy': strategy, 'seed': seed,
                       'delay': delay, 'tests': ntests})
@@ -134,21 +164,29 @@ def main():
                                'seed': seed}, f'exit {rc}: {err}')
                 continue
             groups.setdefault((iname, strategy), []).append(
-                (seed, delay, seqh, outh, ntests))
+                (seed, delay, seqh, outh, ntests, mseqh, mouth, outtxt))
     for (iname, strategy), runs in groups.items():
         seqs = {r[2] for r in runs}
         outs = {r[3] for r in runs}
+        # is a difference confined to the number in a name x<n>__fresh?
+        only_id = ' that differ only in the number of the fresh-variable ' \
+            'name x<id>__fresh (IntroduceFreshVariable writes a node id ' \
+            'into the file)'
         if len(outs) > 1:
+            same_masked = len({r[6] for r in runs}) == 1
             rec.violation('C18/native/same-output-file',
                           {'input': iname, 'strategy': strategy,
-                           'runs': [(r[0], r[1], r[3]) for r in runs]},
-                          'output files differ between repetitions')
+                           'runs': [(r[0], r[1], r[3]) for r in runs],
+                           'outputs': sorted({r[7] for r in runs})[:3]},
+                          'output files differ between repetitions' +
+                          (only_id if same_masked else ''))
         if len(seqs) > 1:
+            same_masked = len({r[5] for r in runs}) == 1
             rec.violation('C18/native/same-sequence-of-accepted-inputs',
                           {'input': iname, 'strategy': strategy,
                            'runs': [(r[0], r[1], r[2], r[4]) for r in runs]},
                           'the output file went through different sequences '
-                          'of contents')
+                          'of contents' + (only_id if same_masked else ''))
     rec.finish(exhaustive=False)
 
 
